@@ -135,6 +135,11 @@ func (i *rwInterceptor) Write(b []byte) (int, error) {
 	if !i.wroteHeader {
 		// if no header has been wrote at this point we aim to return 200
 		i.WriteHeader(http.StatusOK)
+		if i.tx.IsInterrupted() {
+			// interrupted at phase 3: the body must not be buffered anymore (a body
+			// limit rejection would replace the interruption that has to be served)
+			return len(b), nil
+		}
 	}
 
 	if i.tx.IsResponseBodyAccessible() && i.tx.IsResponseBodyProcessable() && !i.wroteBufferedBodyToDownstream {
@@ -260,6 +265,9 @@ func wrap(w http.ResponseWriter, r *http.Request, tx types.Transaction) (
 		// and during writing the response body. If so, response status code
 		// has been sent over the flush already.
 		if tx.IsInterrupted() {
+			if it := tx.Interruption(); it != nil && it.Action == "drop" {
+				dropConnection()
+			}
 			return nil
 		}
 
@@ -269,6 +277,9 @@ func wrap(w http.ResponseWriter, r *http.Request, tx types.Transaction) (
 				i.flushWriteHeader()
 				return err
 			} else if it != nil {
+				if it.Action == "drop" {
+					dropConnection()
+				}
 				// if there is an interruption we must clean the headers and override the status code
 				i.cleanHeaders()
 				i.Header().Set("Content-Length", "0")
